@@ -24,6 +24,15 @@ func C17(c *Ctx) int {
 			Reach: []string{"accepted", "rejected"}, Quiet: true,
 			Bounds: "a two-byte name in @emit( ) / @push_mode( ) / a macro reference / a parser term"})
 	}
+	for others := 0; others <= 2; others++ {
+		h := Harness{Name: fmt.Sprintf("fe.AliasAmbiguity[others=%d]", others), Pkg: "internal/codegen", Func: "H_AliasAmbiguity", Params: map[string]int{"others": others},
+			Reach: []string{"rejected"}, Quiet: true,
+			Bounds: fmt.Sprintf("a parser term refers to the literal 'x'; %d other tokens are spelled 'x'; the literal of one more token is any letter or digit", others)}
+		if others == 0 {
+			h.Reach = []string{"rejected", "accepted"}
+		}
+		hs = append(hs, h)
+	}
 	for _, h := range hs {
 		if !onlyItem(h.Name) {
 			continue
